@@ -81,7 +81,22 @@ def gen_plans(chk, stride, big):
     ps = res.printed("P")
     if not ps:
         raise core.ToolError("StreamGen printed no plan")
-    return [concrete_plan(p, k) for k, p in enumerate(ps)]
+    plans = [concrete_plan(p, k) for k, p in enumerate(ps)]
+    # timed waits interrupted by TWO OR MORE signals (no-op SIGUSR1 handler without SA_RESTART, tgkill of the
+    # waiting thread at the given fractions of the limit): accept_with_timeout that expires, and (TCP) the
+    # silent-peer read_with_timeout of both ends
+    for fam in ("unix", "tcp"):
+        for fracs, d in (([0.3, 0.6, 0.8], 300000), ([0.25, 0.5], 200000), ([0.5, 0.7], 400000)):
+            base = {"fam": fam, "lcs": 2, "lsc": 2, "w": 1, "r": 1, "delay": "none", "acc": "timeout_expires", "con": "plain",
+                    "early": False, "closer": "c", "tmo": -1, "interrupts": fracs, "limit_us": d}
+            pl = concrete_plan(base, 0)
+            pl["accept"] = {"kind": "timeout", "d_us": d, "then": "plain"}
+            pl["connect_delay_ms"] = d // 1000 + 150
+            pl["interrupts"] = fracs
+            if fam == "tcp":
+                pl["silent_us"] = d
+            plans.append(pl)
+    return plans
 
 
 # ------------------------------------------------------------------------------------------
@@ -484,6 +499,9 @@ def run(tier):
         if k in acc and (waited or plans[k]["cs"]["n"] >= 4096):
             nontrivial.add(("conn", k))
     chk.evaluations += nev
+    chk.extra["timed_waits_interrupted_twice_or_more"] = [
+        {"fam": plans[k]["fam"], "op": e["op"], "signals": e["signals"], "limit_us": e.get("d"), "elapsed_us": e["t1"] - e["t0"], "res": e["res"]}
+        for k, c in enumerate(conns) if c for side in ("c", "s") for e in c[side] if e.get("signals", 0) >= 2]
     chk.extra.update({"transfer_plans": len(plans), "connections_accepted": len(acc), "events_logged": nev,
                       "plans_not_run_after_hangs": sum(1 for k, c in enumerate(conns) if c is None and k not in incidents)})
     chk.sample({"plan": plans[0]["klass"], "client_events": [(e["op"], e.get("req"), e["res"], e.get("n")) for e in (conns[0] or {"c": []})["c"][:6]]})
